@@ -93,15 +93,23 @@ def applyMove (p : Net Int) (mv : String) : List (Net Int × String) :=
   | some (.inr _) => [(p, toString (alive p))]
   | none => [(p, "bad")]
 
-def check (cap : Nat) (moves obs : List String) : String := Id.run do
+/-- the states a script starts from: `pre` — the context is cancelled, and the values of `presend` are sent, before the
+pump takes its first step (a caller that creates the pair under a done context and sends at once) -/
+def startStates (cap : Nat) (pre : Bool) (presend : List Int) : List (Net Int) :=
   let p0 : Net Int := Unbound.init cap
-  let mut states := closure [p0]
+  if !pre then [p0] else
+    let okOnly := fun (l : List (Net Int × Obs Int)) => (l.filter fun (_, o) => showObs o == "ok").map (·.1)
+    presend.foldl (fun sts v => sts.flatMap fun p => okOnly (envNext p (.send v))) (okOnly (envNext p0 .cancel))
+
+def check (cap : Nat) (moves obs : List String) (pre : Bool := false) (presend : List Int := []) : String := Id.run do
+  let start := startStates cap pre presend
+  let mut states := closure start
   match obs with
   | [] => return "MISMATCH no observations"
   | o0 :: orest =>
     let want0 := (o0.drop 2).toString
     states := states.filter fun p => !p.panicked && lens p == want0
-    if states.isEmpty then return s!"MISMATCH at init: impl={o0} model={(closure [p0]).map lens}"
+    if states.isEmpty then return s!"MISMATCH at init: impl={o0} model={(closure start).map lens}"
     let mut os := orest
     let mut idx := 0
     for mv in moves do
@@ -154,7 +162,13 @@ def run (line : String) : String :=
   match line.splitOn " || " with
   | [script, obsS] =>
     match script.splitOn " | " with
-    | cfgS :: rest => check (capOf (words cfgS)) (words (rest.headD "")) (words obsS)
+    | cfgS :: rest =>
+      let ws := words cfgS
+      let pre := ws.any fun w => w == "pre=1"
+      let presend := (ws.filterMap fun w => match w.splitOn "=" with
+        | ["presend", v] => some ((v.splitOn ",").filterMap String.toInt?)
+        | _ => none).flatten
+      check (capOf ws) (words (rest.headD "")) (words obsS) pre presend
     | _ => "bad-op"
   | _ => "bad-op"
 
